@@ -87,10 +87,28 @@ def b_all(xs):
     return r
 
 
+RANGES = {}    # z3 ast id -> list of (lo, hi) intervals known to contain an integer input symbol
+DOMAINS = {}   # z3 ast id -> frozenset of admissible values (8-bit input symbols); reset per path
+
+
+def dom_of(x):
+    if isinstance(x, int):
+        return None
+    return DOMAINS.get(x.get_id())
+
+
 def byte_eq(x, y):
     """x,y: int or z3 BV8 -> Sc bool"""
     if isinstance(x, int) and isinstance(y, int):
         return TRUE if x == y else FALSE
+    if isinstance(y, int):
+        d = DOMAINS.get(x.get_id())
+        if d is not None and y not in d:
+            return FALSE
+    elif isinstance(x, int):
+        d = DOMAINS.get(y.get_id())
+        if d is not None and x not in d:
+            return FALSE
     xz = z3.BitVecVal(x, 8) if isinstance(x, int) else x
     yz = z3.BitVecVal(y, 8) if isinstance(y, int) else y
     return mk_bool(z3.simplify(xz == yz))
